@@ -98,7 +98,13 @@ func shape(v ssa.Value, depth int, seen map[ssa.Value]bool) string {
 				if _, isStr := x.X.Type().Underlying().(*types.Basic); isStr && x.X.Type().Underlying().(*types.Basic).Info()&types.IsString != 0 && op == token.ADD {
 					break // string concatenation is not commutative
 				}
-				if b < a {
+				_, xc := x.X.(*ssa.Const)
+				_, yc := x.Y.(*ssa.Const)
+				switch {
+				case xc && !yc:
+				case yc && !xc:
+					a, b = b, a
+				case b < a:
 					a, b = b, a
 				}
 			case token.LEQ:
